@@ -21,6 +21,24 @@ impl InterfaceInner {
             return None;
         }
 
+        // Per RFC 1122 §4.2.3.10 / RFC 9293 §3.10.7.1, a segment addressed to a broadcast
+        // or multicast address must be silently dropped: no socket may see it (a listener
+        // would adopt that address as its local endpoint) and no RST may be sent from it.
+        // The same holds for a loopback destination that is not an address of this
+        // interface, i.e. one that arrived from the network (RFC 1122 §3.2.1.3 (g)).
+        let dst_is_loopback = match dst_addr {
+            #[cfg(feature = "proto-ipv4")]
+            IpAddress::Ipv4(addr) => addr.is_loopback(),
+            #[cfg(feature = "proto-ipv6")]
+            IpAddress::Ipv6(addr) => addr.is_loopback(),
+        };
+        if self.is_broadcast(&dst_addr)
+            || dst_addr.is_multicast()
+            || (dst_is_loopback && !self.ip_addrs.iter().any(|cidr| cidr.address() == dst_addr))
+        {
+            return None;
+        }
+
         let tcp_packet = check!(TcpPacket::new_checked(ip_payload));
         let tcp_repr = check!(TcpRepr::parse(
             &tcp_packet,
